@@ -434,18 +434,16 @@ theorem real_value_meaning (m s : Nat) :
   normReal_spec m s
 
 /-
-What is NOT proved, kept as the target:
+Formerly kept here as "NOT proved": `parsers_agree` for ALL raw byte strings.  It is now a theorem:
+`Tabula.C06Agree.parsers_agree_everywhere` / `parsers_agree` (`Props/C06Agree.lean`) — on every input on which
+both parsers return a value it is the same value and both stand at the same byte (the reference `n g R`, which
+content streams do not have, being the one object read differently).  Further parts of this property:
+`Props/C06Progress.lean` (every call consumes input or fails; the fuel of the models is never reached),
+`Props/C06Errors.lean` (lexical errors propagate; `io.EOF` only after everything was tokenized),
+`Props/C06Number.lean`, `Props/C06Lexer.lean`, `Props/C06Space.lean` (numbers, hex strings, names, comments,
+separators characterised for every input), `Props/C06Statement.lean` (the property text end to end, sequences).
 
-* `parsers_agree` for ALL raw byte strings — "for every input, if both parsers accept it as one
-  operand, the values are equal":
-      theorem parsers_agree : ∀ (inp : Str) (a b : Obj) s r, coreParse inp = .ok (a, s) →
-          CS.parseOperand (CS.fuelFor inp) 0 inp = some (b, r) → a = b
-  It is proved per token class only (`parsers_agree_literal_strings`: the two string readers are
-  the same function on every input; `parsers_agree_names`, `parsers_agree_hex_strings`: whenever
-  the document-level reader accepts, the content-stream reader returns the same value and
-  position) and for everything a legal printer can emit (`agree_on_printed`).  Arbitrary raw
-  inputs are covered only by the differential run (C06/parsers-disagree on the malformed stream).
-* The models are tied to the Go code by the correspondence run, not by proof.
+Still not proved: the models are tied to the Go code by the correspondence run, not by proof.
 -/
 
 end Tabula.C06
